@@ -9,8 +9,10 @@
      irdl_op_verify_arg_list, irdl_op_verify_regions, OpDef.verify (order of checks),
      irdl_build_arg_list, irdl_build_operations_arg / irdl_build_regions_arg (None -> []),
      irdl_op_init (segment-size attribute, same-size check),
-     and of xdsl/irdl/constraints.py: VarConstraint.verify over a variable-free base
-     constraint, RangeOf.verify, SingleOf.verify, ConstraintContext (attr variables).
+     and of xdsl/irdl/constraints.py: VarConstraint.verify / IntVarConstraint.verify over a
+     variable-free base constraint, RangeOf.verify, SingleOf.verify, RangeLengthConstraint.verify
+     (`.of_length`), IntAttrConstraint.verify (builtin.py), ConstraintContext (attribute and
+     integer variables).
    Python ints are Z; exceptions are the explicit constructor `Raise`. *)
 From Coq Require Import ZArith List Bool.
 Import ListNotations.
@@ -293,10 +295,19 @@ Variable A : Type.                 (* attributes / types *)
 Variable A_eqb : A -> A -> bool.   (* attribute equality *)
 Variable ver : version.            (* which repairs the code contains *)
 
-(* VarConstraint(name, base) when cvar = Some name, else base; base is variable-free and
-   is only observed through `verifies`, i.e. as a predicate *)
+(* The value universe A holds attributes AND Python ints (segment lengths, IntAttr payloads):
+   `of_int k` is the int k as a value; `as_int a = Some k` iff a is the attribute IntAttr(k). *)
+Variable of_int : Z -> A.
+Variable as_int : A -> option Z.
+
+(* VarConstraint(name, base) / IntVarConstraint(name, base) when cvar = Some name, else base; base
+   is variable-free and is only observed through `verifies`, i.e. as a predicate on values.
+   Both classes have the same `verify`: if the name is bound (`name in ..._variables`, whatever the
+   bound value, 0 included) compare with the bound value, else check base and bind. *)
 Record constr := { cpred : A -> bool; cvar : option nat }.
-Definition cctx := list (nat * A).            (* ConstraintContext._variables *)
+(* ConstraintContext._variables and ._int_variables as ONE map: attribute-variable names and
+   integer-variable names are given disjoint keys (the two Python dicts never interact) *)
+Definition cctx := list (nat * A).
 Fixpoint ctx_get (v : nat) (ctx : cctx) : option A :=
   match ctx with
   | [] => None
@@ -326,12 +337,23 @@ Definition verify_single_of (c : constr) (attrs : list A) (ctx : cctx) : res cct
   | _ => Raise VerifyException
   end.
 
-Record argdef := { akind : kind; aconstr : constr }.
-(* OperandDef/ResultDef.constr: SingleOf for plain defs, RangeOf for variadic/optional *)
+(* RangeLengthConstraint(RangeOf(c), length).verify when a length constraint is given
+   (`RangeOf(c).of_length(IntVarConstraint("N", ...))`): the length first, then the elements *)
+Definition verify_range (c : constr) (length : option constr) (attrs : list A) (ctx : cctx)
+  : res cctx :=
+  match length with
+  | Some lc => do ctx' <- verify_attr lc (of_int (len attrs)) ctx; verify_range_of c attrs ctx'
+  | None => verify_range_of c attrs ctx
+  end.
+
+(* alen: the optional length constraint of a variadic/optional definition (a plain definition
+   cannot carry one: from_pyrdl rejects a RangeConstraint in operand_def/result_def) *)
+Record argdef := { akind : kind; aconstr : constr; alen : option constr }.
+(* OperandDef/ResultDef.constr: SingleOf for plain defs, RangeOf[.of_length] for variadic/optional *)
 Definition verify_arg_constr (d : argdef) (attrs : list A) (ctx : cctx) : res cctx :=
   match akind d with
   | Single => verify_single_of (aconstr d) attrs ctx
-  | _ => verify_range_of (aconstr d) attrs ctx
+  | _ => verify_range (aconstr d) (alen d) attrs ctx
   end.
 
 (* the loop of irdl_op_verify_arg_list: getattr(op, arg_name) then arg_def.constr.verify *)
@@ -352,13 +374,15 @@ Definition irdl_op_verify_arg_list (opt : sizeopt) (accs : list accessor) (defs 
 
 (* a region = its blocks, each block = its argument types *)
 Definition region := list (list A).
-Record regiondef := { rkind : kind; rsingle : bool; rentry : constr }.  (* entry_args = RangeOf *)
+(* entry_args = RangeOf(rentry)[.of_length(rlen)] *)
+Record regiondef := { rkind : kind; rsingle : bool; rentry : constr; rlen : option constr }.
 
-Fixpoint verify_entry_args (c : constr) (rs : list region) (ctx : cctx) : res cctx :=
+Fixpoint verify_entry_args (c : constr) (lc : option constr) (rs : list region) (ctx : cctx)
+  : res cctx :=
   match rs with
   | [] => Ok ctx
-  | [] :: r => verify_entry_args c r ctx                 (* no first block: nothing to check *)
-  | (b :: _) :: r => do ctx' <- verify_range_of c b ctx; verify_entry_args c r ctx'
+  | [] :: r => verify_entry_args c lc r ctx              (* no first block: nothing to check *)
+  | (b :: _) :: r => do ctx' <- verify_range c lc b ctx; verify_entry_args c lc r ctx'
   end.
 
 Fixpoint verify_regions_loop (accs : list accessor) (defs : list regiondef) (attr : seg_attr)
@@ -369,19 +393,33 @@ Fixpoint verify_regions_loop (accs : list accessor) (defs : list regiondef) (att
       let rs := accres_list r in
       if rsingle d && negb (forallb (fun rg => len rg =? 1) rs) then Raise VerifyException
       else
-        do ctx' <- verify_entry_args (rentry d) rs ctx;
+        do ctx' <- verify_entry_args (rentry d) (rlen d) rs ctx;
         verify_regions_loop accs' defs' attr regions ctx'
   | _, _ => Ok ctx
   end.
 
+(* the constraint of a property/attribute definition: an attribute constraint, or
+   IntAttrConstraint(int_constraint): the value must be an IntAttr and its integer payload must
+   satisfy the (possibly IntVarConstraint) int constraint *)
+Inductive nconstr := NAttr (c : constr) | NIntAttr (ic : constr).
+Definition verify_nconstr (nc : nconstr) (a : A) (ctx : cctx) : res cctx :=
+  match nc with
+  | NAttr c => verify_attr c a ctx
+  | NIntAttr ic =>
+      match as_int a with
+      | Some k => verify_attr ic (of_int k) ctx
+      | None => Raise VerifyException                  (* not isa(attr, IntAttr) *)
+      end
+  end.
+
 (* properties / attributes: definition = (is Opt*Def, constraint); value = present or not *)
-Fixpoint verify_named (defs : list (bool * constr)) (vals : list (option A)) (ctx : cctx)
+Fixpoint verify_named (defs : list (bool * nconstr)) (vals : list (option A)) (ctx : cctx)
   : res cctx :=
   match defs, vals with
   | (optional, c) :: ds, v :: vs =>
       match v with
       | None => if optional then verify_named ds vs ctx else Raise VerifyException
-      | Some a => do ctx' <- verify_attr c a ctx; verify_named ds vs ctx'
+      | Some a => do ctx' <- verify_nconstr c a ctx; verify_named ds vs ctx'
       end
   | _, _ => Ok ctx
   end.
@@ -391,8 +429,8 @@ Record opdef := {
   d_results : list argdef;    d_resopt : sizeopt;
   d_regions : list regiondef; d_regopt : sizeopt;
   d_succs : list kind;        d_sucopt : sizeopt;
-  d_props : list (bool * constr);
-  d_attrs : list (bool * constr) }.
+  d_props : list (bool * nconstr);
+  d_attrs : list (bool * nconstr) }.
 
 Record opinst := {
   o_operands : list A;  o_opseg : seg_attr;       (* operand types, operandSegmentSizes *)
@@ -458,3 +496,10 @@ Definition irdl_op_init (d : opdef) (b : buildargs) : res opinst :=
         o_props := b_props b; o_extra_prop := b_extra_prop b; o_attrs := b_attrs b |}.
 
 End Verify.
+
+(* the concrete value universe of the correspondence harness and of the examples (A := Z):
+   type ids are < 1000; 1000 + k is the attribute IntAttr(k) (0 <= k < 1000); 2000 + k is the
+   Python int k (segment lengths, IntAttr payloads) *)
+Definition zof_int (k : Z) : Z := 2000 + k.
+Definition zas_int (a : Z) : option Z :=
+  if (1000 <=? a) && (a <? 2000) then Some (a - 1000) else None.
